@@ -59,7 +59,10 @@ class ChunkedSource(io.RawIOBase):
         return self.pieces.pop(0) if self.pieces else b""
 
 
-def real_parse(uni, clazz, data: bytes, handler: str, config=None, files=None, xinclude=False, cuts=None):
+_SHARED_PARSERS: dict = {}
+
+
+def real_parse(uni, clazz, data: bytes, handler: str, config=None, files=None, xinclude=False, cuts=None, shared=False):
     """XmlParser(handler).from_bytes, or .from_path on a scratch directory when the
     document is split with XInclude, or .parse of a source that is read in the pieces given
     by `cuts`.  Returns the canonical {"ok"| "err"} shape."""
@@ -73,7 +76,15 @@ def real_parse(uni, clazz, data: bytes, handler: str, config=None, files=None, x
     cfg = dict(config or {})
     if xinclude:
         cfg["process_xinclude"] = True
-    p = XmlParser(context=XmlContext(models_package=uni.modname), config=ParserConfig(**cfg), handler=h)
+    if shared:
+        # one parser (context, metadata and xsi caches, recorder map) for all documents of a universe:
+        # a result must not depend on what was parsed before
+        key = (uni.modname, handler, json.dumps(cfg, sort_keys=True))
+        if key not in _SHARED_PARSERS:
+            _SHARED_PARSERS[key] = XmlParser(context=XmlContext(models_package=uni.modname), config=ParserConfig(**cfg), handler=h)
+        p = _SHARED_PARSERS[key]
+    else:
+        p = XmlParser(context=XmlContext(models_package=uni.modname), config=ParserConfig(**cfg), handler=h)
     d = None
     try:
         with warnings.catch_warnings(record=True) as w:
@@ -84,6 +95,7 @@ def real_parse(uni, clazz, data: bytes, handler: str, config=None, files=None, x
                     with open(os.path.join(d, "main.xml"), "wb") as f:
                         f.write(data)
                     for name, content in (files or {}).items():
+                        os.makedirs(os.path.dirname(os.path.join(d, name)), exist_ok=True)
                         with open(os.path.join(d, name), "wb") as f:
                             f.write(content)
                     obj = p.from_path(pathlib.Path(d) / "main.xml", uni.classes[clazz])
@@ -130,7 +142,21 @@ def any_attr_colon(t):
     return any(":" in v for _, v in t["a"]) or any(any_attr_colon(c) for c in t["c"])
 
 
-SAFE_KINDS = [k for k in R.ALL_KINDS if k not in ("bigpad", "pi_text", "comment_text", "xinclude", "unused_decl")]
+SAFE_KINDS = [k for k in R.ALL_KINDS if k not in ("bigpad", "pi_text", "comment_text", "xinclude", "xinclude_subdir", "unused_decl")]
+XML_BASE = "{http://www.w3.org/XML/1998/namespace}base"
+
+
+def with_xml_base(t, add):
+    """the respelled infoset as each handler's XInclude leaves it: libxml2 adds `xml:base` to a root element
+    included from another directory (base URI fixup), ElementInclude does not"""
+    out = {k: v for k, v in t.items() if k not in ("c", "_xml_base")}
+    out["a"] = list(t["a"]) + ([[XML_BASE, t["_xml_base"]]] if add and t.get("_xml_base") else [])
+    out["c"] = [with_xml_base(c, add) for c in t["c"]]
+    return out
+
+
+def has_xml_base(t):
+    return bool(t.get("_xml_base")) or any(has_xml_base(c) for c in t["c"])
 
 
 def pick_kinds(rng, tree, ann):
@@ -138,6 +164,8 @@ def pick_kinds(rng, tree, ann):
     r = rng.random()
     if r < 0.12:
         kinds.append("xinclude")
+        if rng.random() < 0.4:
+            kinds.append("xinclude_subdir")
     elif r < 0.2:
         kinds.append("pi_text")
     elif r < 0.3:
@@ -175,6 +203,12 @@ def handlers_for(kinds, info, tree, ann, new_tree):
     return hs
 
 
+def _nodes(t):
+    yield t
+    for c in t["c"]:
+        yield from _nodes(c)
+
+
 def norm_tree(t):
     return {"q": t["q"], "a": t["a"], "ns": sorted(([p or "", u] for p, u in t["ns"])), "t": t["t"] or None,
             "c": [norm_tree(c) for c in t["c"]], "tl": t["tl"] or None}
@@ -182,7 +216,7 @@ def norm_tree(t):
 
 # ------------------------------------------------------------------ bind.parse on respelled documents
 def gen_respelled(rng, tier):
-    for u, ctx, desc, tree, kind in documents(rng, tier, n_cases(tier, 110, 1500), 3, mutate=True):
+    for u, ctx, desc, tree, kind in documents(rng, tier, n_cases(tier, 110, 800), 3, mutate=True):
         if kind not in ("valid", "ws", "corrupt_text", "corrupt_attr", "unknown_attr", "drop_attr", "bad_xsi_nil", "reorder", "delete", "duplicate"):
             continue
         if kind != "valid" and rng.random() < 0.5:
@@ -215,12 +249,20 @@ def gen_respelled(rng, tier):
                 # against an independent (expat) reading of the bytes
                 raise RuntimeError("c09_rewrite: respelled document does not have the reported infoset: %r" % data[:400])
             cuts = [] if info["xinclude"] else pick_cuts(rng, data)
-            yield {
-                "ctx": ctx, "tree": new_tree, "clazz": "Root", "config": rng.choice(CONFIGS), "desc": desc, "_uni": u.modname,
-                "_kind": kind, "_kinds": info["kinds"] + (["chunks"] if cuts else []), "_doc": b64(data),
-                "_files": {k: b64(v) for k, v in files.items()},
-                "_handlers": hs, "_orig": b64(orig), "_xinclude": info["xinclude"], "_encoding": info["encoding"], "_cuts": cuts,
-            }
+            config = rng.choice(CONFIGS)
+            feat = ("Q" if prefix_sensitive(tree, ann) else "") + ("W" if any(v.get("wrapper") for v in ann.values()) else "") + \
+                   ("M" if any((n_.get("tl") or "").strip() for n_ in _nodes(tree)) else "") + \
+                   ("O" if any(v.get("opaque") for v in ann.values()) else "")
+            # the two handlers leave different trees behind when a part comes from another directory (xml:base)
+            groups = [[h] for h in hs] if has_xml_base(new_tree) else [hs]
+            for group in groups:
+                yield {
+                    "ctx": ctx, "tree": with_xml_base(new_tree, group == ["lxml"]), "clazz": "Root", "config": config, "desc": desc,
+                    "_uni": u.modname, "_kind": kind, "_kinds": info["kinds"] + (["chunks"] if cuts else []), "_doc": b64(data),
+                    "_files": {k: b64(v) for k, v in files.items()},
+                    "_handlers": group, "_orig": b64(orig), "_xinclude": info["xinclude"], "_encoding": info["encoding"], "_cuts": cuts,
+                    "_feat": feat or "-", "_shared": rng.random() < 0.5,
+                }
 
 
 CTRL_PADS = ["\x1c", "\x1f", "\x1d ", " \x1e", "\x1c\x1f"]
@@ -258,7 +300,7 @@ def impl_respelled(a):
     outs = []
     for h in a["_handlers"]:
         outs.append(real_parse(u, a["clazz"], unb64(a["_doc"]), h, a["config"], {k: unb64(v) for k, v in a["_files"].items()},
-                               a["_xinclude"], a.get("_cuts")))
+                               a["_xinclude"], a.get("_cuts"), bool(a.get("_shared"))))
     if all(o == outs[0] for o in outs):
         return outs[0]
     return {"err": "HANDLERS-DISAGREE", "outs": outs}
@@ -274,7 +316,7 @@ def classify_respelled(a, o):
     r = "ok" if "ok" in o else o.get("err", "unsupported")
     ks = a.get("_kinds", [])
     tag = "ctrlpad" if "ctrl_pad" in ks else "xinclude" if "xinclude" in ks else "encoding" if "encoding" in ks else "prefix" if ("prefix" in ks or "default" in ks) else "other"
-    return f"{a.get('_kind', '?')}:{tag}:{'+'.join(a.get('_handlers', []))}:{r}"
+    return f"{a.get('_kind', '?')}:{tag}:{a.get('_feat', '')}:{'+'.join(a.get('_handlers', []))}:{r}"
 
 
 # ------------------------------------------------------------------ c09.tails: the tails the handlers pass, per read chunk layout
@@ -301,7 +343,19 @@ def gen_tails(rng, tier):
         toks.append(["e", q])
         return toks
 
-    for _ in range(n_cases(tier, 400, 6000)):
+    if tier == "thorough":
+        # bounded-exhaustive: every way of cutting these token streams into read chunks (at token boundaries)
+        fixed = [
+            [["s", "Root"], ["s", "t"], ["c", "x"], ["e", "t"], ["c", "TAIL"], ["s", "t"], ["e", "t"], ["c", "end"], ["e", "Root"]],
+            [["s", "Root"], ["c", "a"], ["c", "b"], ["s", "t"], ["s", "u"], ["e", "u"], ["c", "p"], ["c", "q"], ["e", "t"], ["c", "z"], ["e", "Root"]],
+            [["s", "Root"], ["s", "t"], ["e", "t"], ["s", "t"], ["e", "t"], ["c", " "], ["s", "t"], ["c", "1"], ["e", "t"], ["e", "Root"]],
+        ]
+        for toks in fixed:
+            m = len(toks) - 1
+            for mask in range(1 << m):
+                pos = [0] + [i + 1 for i in range(m) if mask >> i & 1] + [len(toks)]
+                yield {"chunks": [toks[i:j] for i, j in zip(pos, pos[1:]) if i < j]}
+    for _ in range(n_cases(tier, 400, 5000)):
         toks = [["s", "Root"]]
         for _ in range(rng.randint(1, 4)):
             toks += element(1) if rng.random() < 0.7 else [["c", rng.choice(texts)]]
@@ -359,7 +413,263 @@ def classify_tails(a, o):
     return f"{min(len(a['chunks']), 4)} chunks:{'ok' if 'ok' in o else o.get('err')}"
 
 
+# ------------------------------------------------------------------ the tokeniser contract: events of the infoset
+def gen_contract(rng, tier):
+    """respelled documents with the tree of their declarations, read in random pieces"""
+    for u, ctx, desc, tree, kind in documents(rng, tier, n_cases(tier, 60, 450), 3, mutate=False):
+        try:
+            orig = G.tree_xml(tree)
+            tree = R.infoset(orig)
+        except Exception:  # noqa: BLE001
+            continue
+        ann = R.annotate(u, tree)
+        for _ in range(3):
+            kinds = [k for k in R.ALL_KINDS if k != "xinclude" and rng.random() < 0.3]
+            try:
+                data, files, _new_tree, info = R.respell(tree, ann, rng, kinds)
+            except R.Skip:
+                continue
+            if info["xtree"] is None:
+                continue
+            cuts = pick_cuts(rng, data)
+            yield {"doc": info["xtree"], "_doc": b64(data), "_cuts": cuts, "_kinds": info["kinds"] + (["chunks"] if cuts else [])}
+
+
+class _StubNode:
+    def __init__(self, ns_map):
+        self.ns_map = ns_map
+
+
+class _StubParser:
+    """what a handler needs from a parser; records the calls"""
+
+    def __init__(self):
+        self.calls = []
+        self.config = type("C", (), {"process_xinclude": False, "base_url": None, "load_dtd": False})()
+
+    def start(self, clazz, queue, objects, qname, attrs, ns_map):
+        self.calls.append(["start", qname, [[k, v] for k, v in attrs.items()], [[p, u] for p, u in ns_map.items()]])
+        queue.append(_StubNode(ns_map))
+
+    def end(self, queue, objects, qname, text, tail):
+        queue.pop()
+        self.calls.append(["end", qname, text, tail])
+        return False
+
+    def register_namespace(self, ns_map, prefix, uri):
+        self.calls.append(["start-ns", prefix, uri])
+        if prefix not in ns_map:
+            ns_map[prefix] = uri
+
+
+def impl_contract_native(a):
+    """XmlEventHandler on a recording parser: expat + TreeBuilder + process_context vs the model's
+    `pump (toks infoset)`"""
+    from xsdata.formats.dataclass.parsers.handlers import XmlEventHandler
+
+    stub = _StubParser()
+    ns_map: dict = {}
+    try:
+        XmlEventHandler(parser=stub, clazz=None).parse(ChunkedSource(unb64(a["_doc"]), a["_cuts"]), ns_map)
+    except Exception as e:  # noqa: BLE001
+        return {"err": "LEAK:" + type(e).__name__}
+    return {"ok": {"events": stub.calls, "ns_map": [[p, u] for p, u in ns_map.items()]}}
+
+
+def impl_contract_lxml(a):
+    """LxmlEventHandler on a recording parser: libxml2 + element.nsmap + get_text/get_tail vs the model's
+    `spec` (in-scope namespaces as lookups over the prefixes of the document)"""
+    from xsdata.formats.dataclass.parsers.handlers import LxmlEventHandler
+
+    cands = [None]
+
+    def coll(n):
+        for p, _ in n["d"]:
+            p = p or None
+            if p not in cands:
+                cands.append(p)
+        for c in n["c"]:
+            coll(c)
+
+    coll(a["doc"])
+    stub = _StubParser()
+    try:
+        LxmlEventHandler(parser=stub, clazz=None).parse(ChunkedSource(unb64(a["_doc"]), a["_cuts"]), {})
+    except Exception as e:  # noqa: BLE001
+        return {"err": "LEAK:" + type(e).__name__}
+    out = []
+    for c in stub.calls:
+        if c[0] == "start":
+            m = {p: u for p, u in c[3]}
+            extra = [p for p in m if p not in cands and p != "xml"]
+            if extra:
+                return {"err": f"unexpected prefixes {extra}"}
+            out.append(["start", c[1], c[2], [[p, m.get(p)] for p in cands]])
+        else:
+            out.append(c)
+    return {"ok": out}
+
+
+def classify_contract(a, o):
+    ks = a.get("_kinds", [])
+    tag = "+".join(k for k in ("encoding", "cdata", "charref", "comment_text", "pi_text", "default", "prefix", "chunks") if k in ks) or "plain"
+    return f"{tag}:{'ok' if 'ok' in o else o.get('err')}"
+
+
+# ------------------------------------------------------------------ c09.xinclude: process_xinclude of the native handler
+XI_NS = "http://www.w3.org/2001/XInclude"
+_XI_TEXTS = [None, None, "t", "a:x", "x y", "7"]
+
+
+def _xi_print(n, scope=None):
+    """one canonical spelling of an XTree with its declarations (no white space added)"""
+    scope = dict(scope or {})
+    for p_, u in n["d"]:
+        scope[p_] = u
+
+    def name(q, is_attr):
+        u, l = R.split_clark(q)
+        if u is None:
+            return l
+        if not is_attr and scope.get("") == u:
+            return l
+        return next(p_ for p_, w in scope.items() if w == u and p_) + ":" + l
+
+    s = "<" + name(n["q"], False)
+    for p_, u in n["d"]:
+        s += " xmlns%s=\"%s\"" % (":" + p_ if p_ else "", u)
+    for k, v in n["a"]:
+        s += " %s=\"%s\"" % (name(k, True), v.replace("&", "&amp;").replace("<", "&lt;").replace('"', "&quot;"))
+    inner = (n["t"] or "").replace("&", "&amp;").replace("<", "&lt;") + "".join(_xi_print(c, scope) for c in n["c"])
+    s += ">" + inner + "</" + name(n["q"], False) + ">" if inner or n["t"] == "" else "/>"
+    return s + (n["tl"] or "").replace("&", "&amp;").replace("<", "&lt;")
+
+
+def gen_xinclude(rng, tier):
+    """small documents split over several files (sub directories, nested includes, tails behind the
+    include element, declarations inside and outside the parts, missing files, recursive includes),
+    parsed from a path or from a stream with / without a configured base url"""
+    import c08_docs as D
+
+    wk = D.well_known()
+    for _ in range(n_cases(tier, 250, 2500)):
+        files = {}
+        counter = [0]
+
+        def el(depth, fname, allow_inc=True):
+            ns = rng.choice([None, None, "urn:a", "urn:b"])
+            d = []
+            q = rng.choice(["e", "f", "item"])
+            if ns:
+                pf = rng.choice(["a", "b", "c"])
+                d.append([pf, ns])
+                q = "{%s}%s" % (ns, q)
+            if rng.random() < 0.2:
+                d.append([rng.choice(["a", "z"]), rng.choice(["urn:a", "urn:z"])])
+            d = [x for i, x in enumerate(d) if x[0] not in [y[0] for y in d[:i]]]
+            kids = []
+            if depth < 3:
+                for _ in range(rng.randint(0, 2)):
+                    if allow_inc and rng.random() < 0.45 and counter[0] < 5:
+                        kids.append(include(depth, fname))
+                    else:
+                        kids.append(el(depth + 1, fname, allow_inc))
+            attrs = [["k", rng.choice(["v", "a:v", "1"])]] if rng.random() < 0.3 else []
+            return {"d": d, "q": q, "a": attrs, "s": "passed", "t": rng.choice(_XI_TEXTS) if not kids or rng.random() < 0.3 else None,
+                    "c": kids, "tl": rng.choice([None, None, None, "tl"]) if depth else None}
+
+        def include(depth, fname):
+            counter[0] += 1
+            r = rng.random()
+            here = fname.rsplit("/", 1)[0] + "/"
+            if r < 0.08:
+                target, href = here + "missing.xml", "missing.xml"          # no such file
+            elif r < 0.14:
+                href = fname.rsplit("/", 1)[1]                                # includes itself
+                target = None
+            else:
+                sub = rng.choice(["", "", "sub/"])
+                href = "%sp%d.xml" % (sub, counter[0])
+                target = here + href
+                files[target] = None
+                part = el(depth + 1, target)
+                part["tl"] = None
+                files[target] = part
+            attrs = [["href", href]]
+            if rng.random() < 0.1:
+                attrs.append(["parse", "xml"])
+            return {"d": [["xi", XI_NS]], "q": "{%s}include" % XI_NS, "a": attrs, "s": "passed", "t": None, "c": [],
+                    "tl": rng.choice([None, None, "after", " "])}
+
+        main = "/d/main.xml"
+        files[main] = None
+        if rng.random() < 0.08:
+            # a chain of includes around DEFAULT_MAX_INCLUSION_DEPTH = 6
+            n = rng.choice([5, 6, 7, 8])
+            for i in range(1, n + 1):
+                inner = [{"d": [["xi", XI_NS]], "q": "{%s}include" % XI_NS, "a": [["href", "c%d.xml" % (i + 1)]], "s": "passed",
+                          "t": None, "c": [], "tl": None}] if i < n else []
+                files["/d/c%d.xml" % i] = {"d": [], "q": "e", "a": [], "s": "passed", "t": None if inner else "end", "c": inner, "tl": None}
+            files[main] = {"d": [], "q": "e", "a": [], "s": "passed", "t": None, "c": [
+                {"d": [["xi", XI_NS]], "q": "{%s}include" % XI_NS, "a": [["href", "c1.xml"]], "s": "passed", "t": None, "c": [], "tl": None}], "tl": None}
+            yield {"files": [[k, v] for k, v in files.items()], "main": main, "base": None, "path_source": True, "well_known": wk,
+                   "_mode": "chain%d" % n}
+            continue
+        root = el(0, main)
+        if not any(c["q"].endswith("}include") for c in root["c"]) and rng.random() < 0.8:
+            root["c"].append(include(0, main))
+            root["t"] = None if root["t"] is None else root["t"]
+        files[main] = root
+        mode = rng.choice(["path", "path", "stream_base_file", "stream_base_dir", "stream_nobase", "path_base_empty"])
+        yield {"files": [[k, v] for k, v in files.items() if v is not None], "main": main,
+               "base": {"stream_base_file": main, "stream_base_dir": "/d/", "path_base_empty": ""}.get(mode),
+               "path_source": mode.startswith("path"), "well_known": wk, "_mode": mode}
+
+
+def impl_xinclude(a):
+    from xsdata.formats.dataclass.parsers.handlers import XmlEventHandler
+
+    d = tempfile.mkdtemp(prefix="c09-xi-")
+    cwd = os.getcwd()
+    try:
+        def real(name):
+            return d + name[2:]          # "/d/x" -> "<tmp>/x"
+
+        for name, tree in a["files"]:
+            os.makedirs(os.path.dirname(real(name)), exist_ok=True)
+            with open(real(name), "w", encoding="utf-8") as f:
+                f.write(_xi_print(tree))
+        stub = _StubParser()
+        stub.config.process_xinclude = True
+        stub.config.base_url = None if a["base"] is None else ("" if a["base"] == "" else real(a["base"]))
+        ns_map: dict = {}
+        os.chdir(d)                       # relative hrefs without a base are looked up here: nothing is
+        os.mkdir("empty"); os.chdir("empty")
+        try:
+            source = real(a["main"]) if a["path_source"] else io.BytesIO(open(real(a["main"]), "rb").read())
+            XmlEventHandler(parser=stub, clazz=None).parse(source, ns_map)
+        except Exception as e:  # noqa: BLE001
+            return {"err": type(e).__name__}
+        return {"ok": {"events": stub.calls, "ns_map": [[p_, u] for p_, u in ns_map.items()]}}
+    finally:
+        os.chdir(cwd)
+        shutil.rmtree(d, ignore_errors=True)
+
+
+def classify_xinclude(a, o):
+    n_inc = json.dumps(a["files"]).count("}include")
+    return f"{a['_mode']}:{min(n_inc, 3)} includes:{'ok' if 'ok' in o else o.get('err', 'unsupported')}"
+
+
 CORRS = [
+    Corr("c09.xinclude", gen_xinclude, impl_xinclude, compare=cmp_respelled, classify=classify_xinclude,
+         describe="XmlEventHandler with process_xinclude on documents split over files (recording parser) vs get_base_url / "
+                  "xinclude_loader / ElementInclude / iterwalk of the model"),
+    Corr("c08.pump", gen_contract, impl_contract_native, classify=classify_contract,
+         describe="TokeniserContract (native): XmlEventHandler's calls on a recording parser for respelled documents (all rewrite "
+                  "kinds but XInclude, read in pieces) vs pump (toks infoset)"),
+    Corr("c08.inscope", gen_contract, impl_contract_lxml, classify=classify_contract,
+         describe="the same for LxmlEventHandler vs the in-scope specification (element.nsmap, get_text / get_tail)"),
     Corr("c09.tails", gen_tails, impl_tails, classify=classify_tails,
          describe="the tail passed to parser.end for every element by XmlEventHandler and LxmlEventHandler reading a source in given pieces "
                   "vs the model's deferredReads"),
@@ -388,6 +698,7 @@ def gen_oracle(rng, tier):
                 "desc": desc, "_uni": u.modname, "clazz": "Root", "config": {}, "orig": b64(orig), "doc": b64(data),
                 "files": {k: b64(v) for k, v in files.items()}, "xinclude": info["xinclude"],
                 "kinds": info["kinds"] + (["chunks"] if cuts else []), "encoding": info["encoding"], "cuts": cuts,
+                "shared": rng.random() < 0.5,
             }
 
 
@@ -397,7 +708,7 @@ def adapt_corr_case(op, a):
     return {
         "desc": a["desc"], "_uni": a.get("_uni"), "clazz": a["clazz"], "config": a.get("config", {}), "orig": a["_orig"],
         "doc": a["_doc"], "files": a["_files"], "xinclude": a["_xinclude"], "kinds": a["_kinds"], "encoding": a["_encoding"],
-        "cuts": a.get("_cuts") or [],
+        "cuts": a.get("_cuts") or [], "shared": bool(a.get("_shared")),
     }
 
 
@@ -407,7 +718,8 @@ def four_results(a):
     out = {}
     for h in ("native", "lxml"):
         out["orig/" + h] = py_eq_canon(real_parse(u, a["clazz"], unb64(a["orig"]), h, a["config"]))
-        out["new/" + h] = py_eq_canon(real_parse(u, a["clazz"], unb64(a["doc"]), h, a["config"], files, a["xinclude"], a.get("cuts")))
+        out["new/" + h] = py_eq_canon(real_parse(u, a["clazz"], unb64(a["doc"]), h, a["config"], files, a["xinclude"], a.get("cuts"),
+                                                 bool(a.get("shared"))))
     return out
 
 
@@ -457,6 +769,21 @@ def oracle_covered(a, msg):
         found.append("c09-any-attr-prefix")
 
     def explain(k):
+        if k == "new/lxml" and a["xinclude"] and any("/" in name for name in a["files"]):
+            # libxml2 adds xml:base to a root included from another directory: fine once the parts lie next to the main file
+            flat = dict(a)
+            flat["files"] = {name.split("/")[-1]: v for name, v in a["files"].items()}
+            enc = a.get("encoding", "utf-8")
+            enc = "utf-16" if enc.startswith("utf-16") else enc
+            text = unb64(a["doc"]).decode(enc).replace('href="sub/', 'href="').replace("href='sub/", "href='")
+            data = unb64(a["doc"])
+            if enc == "utf-16":
+                new = (b"\xfe\xff" + text.encode("utf-16-be")) if data[:2] == b"\xfe\xff" else (b"\xff\xfe" + text.encode("utf-16-le"))
+            else:
+                new = text.encode(enc)
+            flat["doc"] = b64(new)
+            if m(four_results(flat)[k]) == m(ref):
+                return "c09-lxml-xinclude-xml-base"
         if k == "new/native" and a["xinclude"]:
             # with process_xinclude the native handler walks an ElementTree and invents the prefixes:
             # every document whose content uses prefixes (QName values, xsi:type, name-like wildcard
@@ -488,7 +815,102 @@ def oracle_chunking(a):
     return None
 
 
+def _xi_expand_independent(files, name, parents=()):
+    """the merged document, put together here from the generated files (no xsdata, no ElementInclude)"""
+    tree = files.get(name)
+    if tree is None or name in parents or len(parents) > 5:
+        return None
+
+    def go(n, here):
+        kids = []
+        for c in n["c"]:
+            if c["q"] == "{%s}include" % XI_NS:
+                href = dict(c["a"]).get("href")
+                target = here.rsplit("/", 1)[0] + "/" + href
+                sub = _xi_expand_independent(files, target, parents + (name,))
+                if sub is None:
+                    raise LookupError(target)
+                sub = dict(sub)
+                sub["tl"] = ((sub["tl"] or "") + (c["tl"] or "")) or None
+                kids.append(sub)
+            else:
+                kids.append(go(c, here))
+        out = dict(n)
+        out["c"] = kids
+        return out
+
+    try:
+        return go(tree, name)
+    except LookupError:
+        return None
+
+
+def _xi_calls(handler_name, files, main, mode):
+    from xsdata.formats.dataclass.parsers.handlers import LxmlEventHandler, XmlEventHandler
+
+    h = XmlEventHandler if handler_name == "native" else LxmlEventHandler
+    d = tempfile.mkdtemp(prefix="c09-xi-")
+    cwd = os.getcwd()
+    try:
+        for name, tree in files.items():
+            os.makedirs(os.path.dirname(d + name[2:]), exist_ok=True)
+            with open(d + name[2:], "w", encoding="utf-8") as f:
+                f.write(_xi_print(tree))
+        stub = _StubParser()
+        stub.config.process_xinclude = True
+        stub.config.base_url = {"stream_base_file": d + main[2:], "stream_base_dir": d + "/", "path_base_empty": ""}.get(mode)
+        os.mkdir(d + "/empty")
+        os.chdir(d + "/empty")
+        try:
+            source = d + main[2:] if mode.startswith("path") or mode.startswith("chain") else io.BytesIO(open(d + main[2:], "rb").read())
+            h(parser=stub, clazz=None).parse(source, {})
+        except Exception as e:  # noqa: BLE001
+            return {"err": type(e).__name__}
+        calls = stub.calls
+        if handler_name == "lxml":
+            # the prefix maps of the two spellings differ by construction (declarations of the include
+            # elements); names, attributes, text and tails are what is compared
+            calls = [c[:3] if c[0] == "start" else c for c in calls if c[0] != "start-ns"]
+        return {"ok": calls}
+    finally:
+        os.chdir(cwd)
+        shutil.rmtree(d, ignore_errors=True)
+
+
+def oracle_xinclude(a):
+    """a document split over files, read from a path or from a stream with a base url, makes the handler
+    call the parser like the merged document does"""
+    files = {k: v for k, v in a["files"]}
+    merged = _xi_expand_independent(files, a["main"])
+    mode = a["_mode"]
+    if merged is None or mode == "stream_nobase":
+        return None  # nothing to merge (missing / recursive parts), or no base to resolve against
+    for hname in ("native", "lxml"):
+        if hname == "lxml" and mode == "path_base_empty":
+            continue  # lxml takes base_url="" literally (no document URL), get_base_url treats it as not given
+        ref = _xi_calls(hname, {a["main"]: merged}, a["main"], "path")
+        got = _xi_calls(hname, files, a["main"], mode)
+        if got != ref:
+            return f"{hname}, {mode}: split {json.dumps(got, ensure_ascii=False)[:300]} vs merged {json.dumps(ref, ensure_ascii=False)[:300]}"
+    return None
+
+
+def covered_xinclude(a, msg):
+    """the listed libxml2 behaviour: only the lxml handler, only with a part from another directory, and the
+    only difference is the xml:base attribute on included roots"""
+    if not (msg.startswith("lxml") and any("/sub/" in name for name, _ in a["files"])):
+        return None
+    files = {k: v for k, v in a["files"]}
+    merged = _xi_expand_independent(files, a["main"])
+    ref = _xi_calls("lxml", {a["main"]: merged}, a["main"], "path")
+    got = _xi_calls("lxml", files, a["main"], a["_mode"])
+    if "ok" in got:
+        got = {"ok": [[c[0], c[1], [kv for kv in c[2] if kv[0] != XML_BASE]] if c[0] == "start" else c for c in got["ok"]]}
+    return "c09-lxml-xinclude-xml-base" if got == ref else None
+
+
 ORACLES = [
+    Oracle("xinclude-split-equals-merged", gen_xinclude, oracle_xinclude, covered=covered_xinclude, from_ops=("c09.xinclude",)),
     Oracle("respelling-invariance", gen_oracle, oracle_check, covered=oracle_covered, from_ops=("bind.parse",), adapt=adapt_corr_case),
     Oracle("chunking-invariance", gen_tails, oracle_chunking, from_ops=("c09.tails",)),
 ]
@@ -527,7 +949,22 @@ def finding_native_xinclude():
     return a != b, f"process_xinclude off: {json.dumps(a)}; on (same file, no include in it): {json.dumps(b)}"
 
 
+def finding_lxml_xml_base():
+    desc = _mini([{"name": "mid", "type": {"opt": {"cls": "Mid"}}, "metadata": {"type": "Element"}, "default": {"value": None}}],
+                 [{"name": "Mid", "fields": [{"name": "v", "type": {"opt": "str"}, "metadata": {"type": "Element"}, "default": {"value": None}}]}])
+    main = b'<Root xmlns:xi="http://www.w3.org/2001/XInclude"><xi:include href="sub/mid.xml"/></Root>'
+    u = B.Universe(desc)
+    try:
+        cfg = {"fail_on_unknown_attributes": True}
+        merged = real_parse(u, "Root", b"<Root><mid><v>x</v></mid></Root>", "lxml", cfg)
+        split = {h: real_parse(u, "Root", main, h, cfg, {"sub/mid.xml": b"<mid><v>x</v></mid>"}, True) for h in ("native", "lxml")}
+    finally:
+        u.close()
+    return split["lxml"] != merged and split["native"] == merged, f"merged {json.dumps(merged)}; split: {json.dumps(split)}"
+
+
 FINDINGS = {
+    "c09-lxml-xinclude-xml-base": finding_lxml_xml_base,
     "c09-any-attr-prefix": finding_any_attr_prefix,
     "c09-native-xinclude-prefixes": finding_native_xinclude,
 }
@@ -545,9 +982,9 @@ ASSUMPTIONS = [
     "class universes keep every class under one parent namespace (the metadata cache is the subject of C14)",
     "union-typed class fields are outside the modelled fragment (model answers `unsupported`, not compared)",
 ]
-LEVEL_TEXT = "proof (model: attribute order, ignorable white space, padded values, prefix maps) + correspondence (tokeniser-level respellings)"
+LEVEL_TEXT = "proof (model: attribute order, ignorable white space, padded values, prefix maps for every universe, read chunks, XInclude merging; bytes given the tokeniser contract) + correspondence (the tokeniser contract on generated respellings)"
 LEVEL_NOTE = (
     "Theorems in Props/C09.lean are about the Lean model of NodeParser on the infoset Tree; the respellings that the tokenisers resolve "
     "(comments, PIs, CDATA, character references, encodings, XInclude) are invisible to that interface by construction and are checked by "
-    "sampling only, except for the read chunks of the tokeniser (Backends/Chunks.lean, section 6). Two listed findings are excluded regions."
+    "sampling: section 7 states what is assumed of them as a contract (Backends/Infoset.lean) and lifts the theorems to bytes, the contract is checked by c08.pump / c08.inscope on respelled documents. Read chunks (section 6) and XInclude merging (section 8) are modelled. Three listed findings are excluded regions."
 )
